@@ -1,9 +1,9 @@
 From Coq Require Import Extraction ExtrOcamlBasic.
 From Common Require Import Conv Outcome.
 From Gen Require Import Consts C14.
-From C14 Require Import Model.
+From C14 Require Import Model ModelTags.
 Extraction "c14_model.ml" conv_anchor
   M_mac_decode M_mac_encode M_utf16_encode M_utf16_decode S_utf16be
   M_post_encode M_post_read
   M_name_encode M_name_decode canon_info name_view name_appleBCP name_msBCP
-  name_storage_len name_num_records.
+  name_storage_len name_num_records M_otf_pair.
